@@ -31,6 +31,8 @@ use buffers::trim_byte;
 //@@ include response_prelude
 //@@ include_stub response_code
 //@@ include_stub proxy_code
+//@@ include streams_prelude
+//@@ include_stub streams_code
 //@@ include write_prelude
 //@@ include request_prelude
 //@@ include request_code
@@ -40,4 +42,5 @@ use buffers::trim_byte;
 //@@ include body_tail
 //@@ include request_tail
 impl Read for BaseStream { fn read(&mut self, b: &mut [u8]) -> io::Result<usize> { unimplemented!() } }
+impl Write for BaseStream { fn write(&mut self, b: &[u8]) -> io::Result<usize> { unimplemented!() } fn flush(&mut self) -> io::Result<()> { unimplemented!() } }
 fn main(){}
